@@ -284,8 +284,14 @@ def gen_cases(rng: random.Random, n: int, tier: str):
             out.append({"kind": "alg", "a": render_pk(rng, sa), "b": render_pk(rng, sb), "seed": seed})
         elif r < 0.88:
             s = gen_pk_string(rng, 0.05, nmax=4)
-            out.append({"kind": "search", "mfl": s, "pick": [rng.random() for _ in range(40)],
-                        "size": rng.choice([2, 3, 3, 4, 4, 5, 5, 6]), "seed": seed})
+            c = {"kind": "search", "mfl": s, "pick": [rng.random() for _ in range(40)],
+                 "size": rng.choice([2, 3, 3, 4, 4, 5, 5, 6]), "seed": seed,
+                 # the function table is a dict: any key order is a legal input (merged / updated / filtered tables)
+                 "order": rng.choice(["asis", "asis", "shuffle", "shuffle", "reverse", "interleave"]),
+                 "perm": [rng.random() for _ in range(40)]}
+            if rng.random() < 0.4:
+                c["mfl2"] = gen_pk_string(rng, 0.05, nmax=3)  # table = {**funcs(space 1), **funcs(space 2)}
+            out.append(c)
         else:
             n_st = rng.choice([1, 1, 2, 3, 4])
             s = ";".join(gen_full_statement(rng) for _ in range(n_st))
@@ -318,6 +324,11 @@ def corpus_cases():
     cs.append({"kind": "search", "mfl": "ABSORPTION([FO,ZO]);TRANSITS([0,1],*);LAGTIME(ON)", "pick": [], "size": 9,
                "only": ["ABSORPTION(FO)", "ABSORPTION(ZO)", "TRANSITS(0, NODEPOT)", "TRANSITS(1, NODEPOT)", "TRANSITS(1, DEPOT)",
                         "LAGTIME(ON)"], "seed": 17})
+    cs.append({"kind": "search", "mfl": "ABSORPTION(FO);PERIPHERALS(1)", "mfl2": "ABSORPTION(ZO);ELIMINATION(MM);PERIPHERALS(2)",
+               "pick": [], "size": 9, "order": "asis", "perm": [],
+               "only": ["ABSORPTION(FO)", "PERIPHERALS(1)", "ABSORPTION(ZO)", "ELIMINATION(MM)", "PERIPHERALS(2)"], "seed": 26})
+    cs.append({"kind": "search", "mfl": "ABSORPTION([FO,ZO]);ELIMINATION([MM,ZO]);LAGTIME(ON)", "pick": [], "size": 9,
+               "order": "interleave", "perm": [], "only": ["ABSORPTION", "ELIMINATION", "LAGTIME(ON)"], "seed": 27})
     cs.append({"kind": "roundtrip", "mfl": "ALLOMETRY(WT)", "seed": 18})
     cs.append({"kind": "roundtrip", "mfl": "ALLOMETRY(WT,70)", "seed": 19})
     cs.append({"kind": "roundtrip", "mfl": "ALLOMETRY(WT,70.5);ALLOMETRY(LBM,1)", "seed": 24})
@@ -1045,6 +1056,12 @@ def run_search(case, drv):
             for a in atoms_of(mf)}
     if set(allf) != want:
         mon.append({"cls": "convert-to-funcs-keys-vs-atoms", "what": f"{case['mfl']!r}: keys {sorted(map(str, allf))}"})
+    if case.get("mfl2"):
+        mf2, e2 = attempt(lambda: mfl_parse(case["mfl2"], mfl_class=True))
+        allf2, e2 = attempt(lambda: mf2.convert_to_funcs()) if not e2 else (None, e2)
+        if not e2:
+            allf = {**allf, **allf2}  # a merged table: the keys of one category need not be adjacent
+            tags.append("search-merged-table")
     keys_all = list(allf)
     if "only" in case:
         keys = [x for x in keys_all if ms_alg.key_to_str(x) in case["only"] or x[0] in case["only"]]
@@ -1056,8 +1073,40 @@ def run_search(case, drv):
         score = {x: (pick[i % len(pick)] if pick else 0) for i, x in enumerate(canon)}
         chosen = set(sorted(canon, key=lambda x: -score[x])[:case["size"]])
         keys = [x for x in keys_all if x in chosen]
+    order = case.get("order", "asis")
+    canon_keys = sorted(keys, key=lambda x: tuple(map(str, x)))
+    if order == "shuffle":
+        perm = case.get("perm") or [0.0]
+        sc = {x: perm[i % len(perm)] for i, x in enumerate(canon_keys)}
+        keys = sorted(canon_keys, key=lambda x: sc[x])
+    elif order == "reverse":
+        keys = list(reversed(keys))
+    elif order == "interleave":  # round-robin over the categories: no two adjacent keys of one category where avoidable
+        byk = {}
+        for x in canon_keys:
+            byk.setdefault(x[0], []).append(x)
+        keys = [g[i] for i in range(max(map(len, byk.values()), default=0)) for g in byk.values() if i < len(g)]
+    runs = 1 + sum(1 for i in range(1, len(keys)) if keys[i][0] != keys[i - 1][0]) if keys else 0
+    contiguous = runs == len({x[0] for x in keys})
+    tags.append(f"search-order={order}")
+    tags.append("search-table-contiguous" if contiguous else "search-table-noncontiguous")
     funcs = {x: allf[x] for x in keys}
     wire = [key_sexp(x) for x in keys]
+
+    # -------- _group_incompatible_features: the groups are the categories, whatever the key order
+    from pharmpy.tools.mfl import helpers as mfl_helpers
+    grp = [list(g) for g in mfl_helpers._group_incompatible_features(funcs)]
+    want_grp = {}
+    for x in keys:
+        want_grp.setdefault(x[0], []).append(x)
+    if sorted(sorted(g, key=str) for g in grp) != sorted(sorted(g, key=str) for g in want_grp.values()):
+        mon.append({"cls": "feature-groups-are-not-the-categories",
+                    "what": f"_group_incompatible_features on keys {[ms_alg.key_to_str(x) for x in keys]} gives "
+                            f"{[[ms_alg.key_to_str(x) for x in g] for g in grp]}"})
+    if drv is not None:
+        ans = drv.ask(["groups", wire])
+        if ans != [[key_sexp(x) for x in g] for g in grp]:
+            k.append(f"_group_incompatible_features keys {keys}: model {ans} code {grp}")
     tags.append(f"search-keys={len(keys)}")
     tags.append("search-peri>=3" if len({x[1] for x in keys if x[0] == "PERIPHERALS"}) >= 3 else "search-peri<3")
     only_drug = all(len(x) == 2 for x in keys if x[0] == "PERIPHERALS")
@@ -1074,8 +1123,18 @@ def run_search(case, drv):
     ref = [tuple(y for y in t if y is not None) for t in itertools.product(*[[None] + g for g in groups.values()])]
     ref = [t for t in ref if t]
     got = [tuple(c[1]) for c in cands]
-    if sorted(got) != sorted(ref) or len(got) != len(set(got)):
-        mon.append({"cls": "exhaustive-not-the-product", "what": f"keys {keys}: {len(got)} combos, {len(ref)} expected"})
+    two = next((c for c in got if len({y[0] for y in c}) != len(c)), None)
+    if two is not None:
+        mon.append({"cls": "exhaustive-two-features-of-one-category",
+                    "what": f"table keys {[ms_alg.key_to_str(x) for x in keys]}: candidate {[ms_alg.key_to_str(x) for x in two]}"})
+    if sorted(map(frozenset, got), key=sorted) != sorted(map(frozenset, ref), key=sorted) or len(got) != len(set(got)):
+        mon.append({"cls": "exhaustive-not-the-product",
+                    "what": f"table keys {[ms_alg.key_to_str(x) for x in keys]}: {len(got)} combinations, the product over the categories has {len(ref)}"})
+    # invariance under the key order of the table
+    got_canon = {frozenset(c) for c in all_combinations({x: allf[x] for x in canon_keys})}
+    if {frozenset(c) for c in got} != got_canon:
+        mon.append({"cls": "exhaustive-depends-on-key-order",
+                    "what": f"all_combinations differs between key order {[ms_alg.key_to_str(x) for x in keys]} and the sorted order"})
     if drv is not None:
         ans = drv.ask(["allcomb", wire])
         if ans != [[key_sexp(x) for x in c[1]] for c in cands] or names != [f"modelsearch_run{i + 1}" for i in range(len(cands))]:
